@@ -15,6 +15,9 @@ from pyvc.lang import *
 LAYERS = "yowsup/layers/__init__.py"
 NOISE = "yowsup/layers/noise/layer.py"
 
+EV_WRITE = "consonance.streams.segmented.blockingqueue.BlockingQueueSegmentedStream.EVENT_WRITE"
+EV_READ = "consonance.streams.segmented.blockingqueue.BlockingQueueSegmentedStream.EVENT_READ"
+ST_TRANSPORT = "consonance.protocol.WANoiseProtocol.STATE_TRANSPORT"
 E_DISCONNECT = "org.openwhatsapp.yowsup.event.network.disconnect"
 E_HANDSHAKE_FAILED = "org.whatsapp.yowsup.layer.noise.event.handshake_failed"
 P_SEGMENTS = "org.openwhatsapp.yowsup.prop.noise.segmented_enabled"
@@ -137,6 +140,10 @@ extern("profile.config", event="profile.config", returns=Opaque("config"), pure=
 def _handle_stream_event(self: Obj("YowNoiseLayer"), event: Opaque("streamevent")):
     # the handshake worker's write goes down as one segment; its read takes the OLDEST queued incoming segment (blocking)
     ensures(n_events("toLower") + n_events("stream.put_read_segment") <= 1 and n_events("toUpper") == 0)
+    # ... and which of the two happens is decided by the stream's event, nothing else: WRITE -> down, READ -> feed the worker
+    ensures(implies(event == ext_value(EV_WRITE), n_events("toLower") == 1 and n_events("stream.put_read_segment") == 0))
+    ensures(implies(event != ext_value(EV_WRITE) and event == ext_value(EV_READ), n_events("stream.put_read_segment") == 1 and n_events("toLower") == 0))
+    ensures(implies(event != ext_value(EV_WRITE) and event != ext_value(EV_READ), n_events("stream.put_read_segment") == 0 and n_events("toLower") == 0))
     ensures(implies(n_events("toLower") == 1, same_obj(event_arg("toLower", 0), event_result("stream.get_write_segment", 0))))
     ensures(implies(n_events("stream.put_read_segment") == 1, n_events("queue.get") == 1
                     and same_obj(event_arg("stream.put_read_segment", 0, 1), event_result("queue.get", 0))))
@@ -153,6 +160,9 @@ def _on_protocol_state_changed(self: Obj("YowNoiseLayer"), state: Opaque("state"
     # a server key different from the one the handshake started with is stored in the profile: one write, with the NEW key, and BEFORE
     # any buffered frame is handed upward; an unchanged key is not rewritten; other states do nothing
     ensures(n_events("profile.write_config") <= 1 and n_events("flush") <= 1)
+    # the buffered frames are released exactly when the protocol reaches TRANSPORT state (not earlier: they would be fed to the
+    # application undecrypted-in-order; not never: they would stay in the queue)
+    ensures((n_events("flush") == 1) == (state == ext_value(ST_TRANSPORT)))
     ensures(implies(n_events("profile.write_config") == 1, n_events("flush") == 1 and at_event("flush", 0, lambda: n_events("profile.write_config") == 1)
                     and n_events("setattr:server_static_public") == 1
                     and same_obj(event_arg("setattr:server_static_public", 0, 1), field(self._wa_noiseprotocol, "rs"))
